@@ -11,6 +11,8 @@ package zkaffp
 
 //@ func (*Proof).Verify
 //@   nopanic[C05]
+//@   modifies nothing
+//@   allocates
 //@   requires group != nil && hash != nil && hash.h != nil && public.Kv != nil && public.Dv != nil && public.Fp != nil && public.Xp != nil && pkok(public.Prover) && pkok(public.Verifier) && pedok(public.Aux)
 
 //@ func challenge
